@@ -27,17 +27,41 @@ TLV_THOROUGH = g('tlv', tlvrand=6000, tlvtrunc=6000, tlvbig=40, tlvmany=100)
 BUILDER_QUICK = g('builder', bseq=120, bsetlen=120, btotal=10, bpairs=40)
 BUILDER_THOROUGH = g('builder', bseq=5000, bsetlen=5000, btotal=200, bpairs=1500)
 
+
+def model(module, quick, thorough, need=(), workers=8, cap=None, tq=600, tt=3000):
+    cfg = {}
+    if quick:
+        cfg['quick'] = quick
+    if thorough:
+        cfg['thorough'] = thorough
+    return dict(module=module, cfg=cfg, need=list(need), workers=workers,
+                cap=cap or dict(quick=1500, thorough=40000), timeout=dict(quick=tq, thorough=tt))
+
+
+MC_V1 = model('MC_StreamV1', 'MC_StreamV1_quick.cfg', 'MC_StreamV1_thorough.cfg', need=['final.v1b'],
+              cap=dict(quick=400, thorough=12000))
+MC_V1_DEEP = model('MC_StreamV1', 'MC_StreamV1_quick.cfg', 'MC_StreamV1_deep.cfg', need=['final.v1b'],
+                   cap=dict(quick=400, thorough=20000), tt=7200)
+MC_V2 = model('MC_StreamV2', 'MC_StreamV2_quick.cfg', 'MC_StreamV2_thorough.cfg', need=['final.v2'],
+              cap=dict(quick=300, thorough=4000))
+MC_TLV = model('MC_Tlv', 'MC_Tlv_quick.cfg', 'MC_Tlv_thorough.cfg', need=['kinds'], cap=dict(quick=1500, thorough=30000))
+MC_BUILDER = model('MC_Builder', 'MC_Builder_quick.cfg', 'MC_Builder_thorough.cfg', need=['built'],
+                   cap=dict(quick=600, thorough=15000), tt=7200)
+MC_WRITER = model('MC_Writer', 'MC_Writer_quick.cfg', 'MC_Writer_thorough.cfg', need=['refused'])
+MC_FORMAT = model('MC_Format', 'MC_Format_quick.cfg', 'MC_Format_thorough.cfg', need=['len'], cap=dict(quick=800, thorough=20000))
+MC_CONVERT = model('MC_Convert', 'MC_Convert.cfg', 'MC_Convert.cfg', need=['op'])
+
 PROPS = {
     'C01': dict(
         gens=dict(quick=V1_QUICK + IPTEXT_QUICK, thorough=V1_THOROUGH + IPTEXT_THOROUGH),
-        models=[],
+        models=[MC_V1_DEEP],
         rule='stream sessions (a v1-shaped byte stream delivered in chunks, every entry point re-run after each chunk); '
              'an event is non-trivial when the buffer contains a CR, i.e. a candidate line exists; distinct = distinct '
              '(stream prefix) inputs',
     ),
     'C02': dict(
         gens=dict(quick=V2_QUICK, thorough=V2_THOROUGH),
-        models=[],
+        models=[MC_V2],
         rule='stream sessions over v2-shaped inputs (all control-byte pairs in thorough, boundary lengths, signature '
              'corruptions); non-trivial = at least 16 bytes starting with the v2 signature; distinct = distinct inputs',
     ),
@@ -48,7 +72,7 @@ PROPS = {
             + g('convert', cvrand=66),
             thorough=V1_THOROUGH + V2_THOROUGH + TLV_THOROUGH + g('builder', bseq=3000, rebuild=1000, bwire=500)
             + g('writer', wvals=3000, wints=20, wtlv=2) + g('format', fmtshapes=6561, fmtrand=5000) + g('convert', cvrand=2200)),
-        models=[],
+        models=[MC_V1, MC_V2, MC_TLV],
         profiles=['debug', 'release'],
         rule='every event of every family, in a build with overflow checks and debug assertions and in a build without; '
              'non-trivial = a call into the crate on a non-empty input; distinct = distinct inputs',
@@ -56,7 +80,7 @@ PROPS = {
     'C04': dict(
         gens=dict(quick=g('stream', v1good=200, v1struct=60, v2good=150, mixed=80),
                   thorough=g('stream', v1good=5000, v1struct=2000, v2good=4000, mixed=2500)),
-        models=[],
+        models=[MC_V1, MC_V2],
         rule='stream sessions whose header is followed by trailers (application bytes, another header, CR/LF/NUL, a '
              'digit, a TLV); non-trivial = an event after the first accept in the session, or the re-parse of the '
              'reported header alone; distinct = distinct inputs',
@@ -64,99 +88,99 @@ PROPS = {
     'C05': dict(
         gens=dict(quick=g('stream', v1good=250, v2good=200, mixed=80),
                   thorough=g('stream', v1good=6000, v2good=5000, mixed=2500)),
-        models=[],
+        models=[MC_V1, MC_V2],
         rule='stream sessions delivered mostly one byte per read, so every proper prefix is a state; non-trivial = the '
              'first accept of a session that visited at least one proper prefix of that header; distinct = distinct headers+splits',
     ),
     'C06': dict(
         gens=dict(quick=g('stream', mixed=200, v1good=80, v2good=80, v2corrupt=60, v1junk=60, bytes=60),
                   thorough=g('stream', mixed=6000, v1good=2000, v2good=2000, v2corrupt=2000, v1junk=2000, bytes=2000)),
-        models=[],
+        models=[MC_V1, MC_V2],
         rule='every stream event (the three verdicts on the same buffer); non-trivial = non-empty buffer',
     ),
     'C07': dict(
         gens=dict(quick=g('builder', bwire=160), thorough=g('builder', bwire=6000)),
-        models=[],
+        models=[MC_BUILDER],
         rule='builder sessions with valid codes and TLV-only payloads, followed by a parse of what was built; '
              'non-trivial = a build or parse-back whose payload fits in 65535 bytes; distinct = distinct call sequences',
     ),
     'C08': dict(
         gens=dict(quick=g('format', fmtshapes=220, fmtrand=300) + IPTEXT_QUICK + g('stream', v1good=100),
                   thorough=g('format', fmtshapes=6561, fmtrand=30000) + IPTEXT_THOROUGH + g('stream', v1good=3000)),
-        models=[],
+        models=[MC_FORMAT],
         rule='Display of address values (every zero-run shape in thorough, random pairs) parsed back through the four '
              'text entry points, plus Display of parsed headers; every event is non-trivial; distinct = distinct values',
     ),
     'C09': dict(
         gens=dict(quick=BUILDER_QUICK, thorough=BUILDER_THOROUGH),
-        models=[],
+        models=[MC_BUILDER],
         rule='builder call sequences with set_length at every position and totals around 65535; after every call the '
              'build() of the prefix is observed; non-trivial = a build result (Ok/Err) of a live builder, or an '
              'oversized value; distinct = distinct call-sequence prefixes',
     ),
     'C10': dict(
         gens=dict(quick=BUILDER_QUICK, thorough=BUILDER_THOROUGH),
-        models=[],
+        models=[MC_BUILDER],
         rule='builder call sequences; non-trivial = a successful build of a live builder; distinct = distinct '
              'call-sequence prefixes; paired sessions differ only in reservations / batching',
     ),
     'C11': dict(
         gens=dict(quick=TLV_QUICK + g('stream', v2good=120), thorough=TLV_THOROUGH + g('stream', v2good=4000)),
-        models=[],
+        models=[MC_TLV, MC_V2],
         rule='one event per next() on arbitrary sections, plus the TLV walk of every accepted v2 header; non-trivial '
              '= non-empty section / accepted header; distinct = distinct (section, position)',
     ),
     'C12': dict(
         gens=dict(quick=g('stream', v1corrupt=400, v2corrupt=300) + IPTEXT_QUICK,
                   thorough=g('stream', v1corrupt=12000, v2corrupt=9000) + IPTEXT_THOROUGH),
-        models=[],
+        models=[MC_V1_DEEP, MC_V2],
         rule='sessions tagged with (well-formed base, element, replacement); the specification re-derives the corrupted '
              'input and whether the replacement qualifies; non-trivial = qualifying corruption observed at the end of '
              'the line / header; distinct = distinct corrupted inputs',
     ),
     'C13': dict(
         gens=dict(quick=g('builder', rebuild=120), thorough=g('builder', rebuild=4000)),
-        models=[],
+        models=[MC_V2],
         rule='parse a header, rebuild it from the observed parts (raw / items / address value); non-trivial = a '
              'rebuild whose inputs are verified to be the observed parts; distinct = distinct (header, mode)',
     ),
     'C14': dict(
         gens=dict(quick=g('stream', v2good=200, v2len=330, v2ctrl=300), thorough=g('stream', v2good=6000, v2len=2500, v2ctrl=65536)),
-        models=[],
+        models=[MC_V2],
         rule='every accepted v2 header in the stream traces, borrowed and owned views; distinct = distinct inputs',
     ),
     'C15': dict(
         gens=dict(quick=g('stream', v1good=300, v1struct=60), thorough=g('stream', v1good=8000, v1struct=2000)),
-        models=[],
+        models=[MC_V1],
         rule='every accepted v1 header (bytes and text entry points); distinct = distinct inputs',
     ),
     'C16': dict(
         gens=dict(quick=V1_QUICK + g('stream', v2good=80) + g('tlv', tlvrand=80, tlvtrunc=80),
                   thorough=V1_THOROUGH + g('stream', v2good=3000) + g('tlv', tlvrand=3000, tlvtrunc=3000)),
-        models=[],
+        models=[MC_V1, MC_V2],
         rule='every stream event whose buffer is valid UTF-8 (agreement clause) and every accepted header / decoded '
              'TLV (owned-copy clause, read after the input buffer was overwritten and dropped)',
     ),
     'C17': dict(
         gens=dict(quick=g('stream', v2len=500, v2good=150), thorough=g('stream', v2len=6000, v2good=4000)),
-        models=[],
+        models=[MC_V2],
         rule='truncated v2 headers delivered in chunks ending exactly at / before the declared length; non-trivial = '
              'an Incomplete or Partial verdict; distinct = distinct inputs',
     ),
     'C18': dict(
         gens=dict(quick=g('stream', v1struct=300, v1len=40, v1cr=120, v1corrupt=100, v1junk=100),
                   thorough=g('stream', v1struct=8000, v1len=600, v1cr=3000, v1corrupt=3000, v1junk=3000)),
-        models=[],
+        models=[MC_V1],
         rule='stream events whose buffer has a byte after its first CR, or >= 107 bytes and no CR; distinct = distinct inputs',
     ),
     'C19': dict(
         gens=dict(quick=g('convert', cvrand=330), thorough=g('convert', cvrand=22000)),
-        models=[],
+        models=[MC_CONVERT],
         rule='constructor / conversion calls with pairwise distinct arguments; every event is non-trivial',
     ),
     'C20': dict(
         gens=dict(quick=g('writer', wvals=200, wints=2, wtlv=1, wlimit=10), thorough=g('writer', wvals=8000, wints=60, wtlv=4, wlimit=300)),
-        models=[],
+        models=[MC_WRITER],
         rule='values of every WriteToHeader type written into empty and pre-filled writers; non-trivial = writer at '
              'most 4096 bytes long (well below its limit); distinct = distinct (prefill, value)',
     ),
